@@ -290,6 +290,14 @@ MALFORMED_FILES = [
     "package p\n\ntype T {\n}\n\nS <- 'a'\n",
     "package p\n\ntype T Peg {\n N int\n\nS <- 'a'\n",
     "package p\n\nimport (\n\"a\"\n) )\ntype T Peg {\n}\n\nS <- 'a'\n",
+    # the shapes of C10_rejects_bad_import, C10_rejects_missing_type, C10_rejects_missing_Peg
+    "package p\n\nimport 'fmt'\n\ntype T Peg {\n}\n\nS <- 'a'\n",
+    "package p\n\nimport <fmt>\n\ntype T Peg {\n}\n\nS <- 'a'\n",
+    "package p\n\nimport \"fmt\"\nimport\n",
+    "package p\n\nS <- 'a'\n",
+    "package p\n\nimport \"fmt\"\n\nTYPE T Peg {\n}\n\nS <- 'a'\n",
+    "package p\n\ntype T peg {\n}\n\nS <- 'a'\n",
+    "package p\n\ntype T\n",
 ]
 # the witnesses of the former finding E1 (repaired by fix 10b1614): now ordinary grammars with a documented meaning
 E1 = [("R", ("seq", [("lit", [("c", 97, "plain")]), ("lit", []), ("lit", [("c", 98, "plain")])]), "R <- 'a' '' 'b'"),
